@@ -47,14 +47,14 @@ func NewExpression(node ast.Node) (Expression, error) {
 
 	return &expression{
 		nodeEvaluator:  nodeEvaluator,
-		executionState: CreateExecutionState(),
+		executionState: createExpressionState(),
 	}, nil
 }
 
 func (se *expression) CopyReset() Expression {
 	return &expression{
 		nodeEvaluator:  se.nodeEvaluator,
-		executionState: CreateExecutionState(),
+		executionState: createExpressionState(),
 	}
 }
 
